@@ -3,7 +3,7 @@
 # Exit 0 when every obligation is proved.
 cd "$(dirname "$0")/../spec/proofs" || exit 2
 rc=0
-for m in LinOrder TilingLemma ShowdownPass; do
+for m in LinOrder TilingLemma ShowdownPass PosWalkProof; do
   out=$(timeout 600 tlapm --threads 8 --cleanfp $m.tla 2>&1 | grep -E "obligations (proved|failed)|Error" | tail -1)
   echo "$m: $out"
   case "$out" in *"All "*" obligations proved."*) ;; *) rc=1;; esac
